@@ -754,6 +754,19 @@ def range_parts(r):
     return ("at", r, None)
 
 
+def split_const(t):
+    """(atom term or None, integer constant) if t is `atom + k` in any arrangement, else (None, None)."""
+    from ..poly import poly
+    p = poly(t)
+    k = p.m.get((), 0)
+    rest = [(mon, c) for mon, c in p.m.items() if mon != ()]
+    if not rest:
+        return (None, int(k)) if k == int(k) else (None, None)
+    if len(rest) == 1 and len(rest[0][0]) == 1 and rest[0][1] == 1 and k == int(k):
+        return (rest[0][0][0], int(k))
+    return (None, None)
+
+
 def boundary_of(prog, body, x, base, facts, depth=0):
     """Is term x provably a char boundary (0 <= x <= len) of str term `base`?
     Returns a reason string or None."""
@@ -780,10 +793,11 @@ def boundary_of(prog, body, x, base, facts, depth=0):
             return "offset yielded by %s over the same str" % ib[1]
         # zip/prefix relation: iterating a prefix/sub-slice is not the same string
         return None
-    if x[0] == "bin" and x[1] == "Add" and x[3][0] == "int":
-        ib = index_iter_base(prog, body, x[2])
+    atom_, k_ = split_const(x) if x[0] == "bin" and x[1] == "Add" else (None, None)
+    if atom_ is not None and k_ is not None and k_ >= 1:
+        ib = index_iter_base(prog, body, atom_)
         if ib is not None and ib[0] == base:
-            k = x[3][1]
+            k = k_
             # pattern must be a constant char of UTF-8 length k
             pat = None
             if ib[1] == "str::match_indices":
@@ -804,6 +818,14 @@ def boundary_of(prog, body, x, base, facts, depth=0):
                     other = atom[3] if atom[2] == want else atom[2]
                     if other[0] == "int" and other[1] < 0x80:
                         return "offset - 1 where the byte at offset - 1 is the ASCII byte %d" % other[1]
+    if x[0] == "phi" and body.cfg.loop_of_header(x[1]) is None:
+        # a merge of several values (if/else, match): every incoming value must be a boundary
+        # under the facts known on its own predecessor edge
+        s_ = sym_of(body)
+        ins = s_.phi_inputs(x)
+        if ins and all(boundary_of(prog, body, prog.simp(v, body), base, facts_at(prog, body, p), depth + 1) is not None
+                       for p, v in ins.items()):
+            return "merge of values that are each a boundary on their own path"
     if x[0] in ("phi", "upvar"):
         ok, why = state_defs_ok(prog, body, x, lambda d, selfs: d in selfs or
                                 boundary_of(prog, body, d, base, facts, depth + 1) is not None)
@@ -1268,7 +1290,8 @@ def loop_string_shrinks(prog, body, lm):
                 ok = False
                 break
             kind, st_, en_ = range_parts(v[2][1])
-            if kind != "from" or not (st_[0] == "bin" and st_[1] == "Add" and st_[3][0] == "int" and st_[3][1] >= 1):
+            at_, k_ = split_const(st_) if kind == "from" else (None, None)
+            if kind != "from" or k_ is None or k_ < 1:
                 ok = False
                 break
         if ok and n > 0:
